@@ -129,7 +129,8 @@ def c08():
     return {
         "props_file": "Props/C08.v",
         "theorems": ["C08_wellformed", "C08_wellformed_labels", "C08_meaning", "C08_every_insertion",
-                     "C08_results_from_leaves", "C08_no_wrap_update", "C08_width_matters"],
+                     "C08_results_from_leaves", "C08_no_wrap_update", "C08_width_matters",
+                     "C08_source_tie_insert", "C08_source_tie_split_leaf", "C08_source_tie_split_inner"],
         "suites": [suite_hist.suite_seq_refine("C08"), suite_hist.suite_tiny_long("C08"), suite_hist.suite_tree_walk, suite_hist.suite_boundary,
                    suite_hist.suite_exhaustive, suite_sub.suite_sub],
         "search": suite_hist.search_hist("C08"),
@@ -228,7 +229,8 @@ def c02():
         "theorems": ["C02_exact", "C02_aligned", "C02_merge_exact", "C02_update_exact",
                      "C02_width_holds_count", "C02_boundary_255",
                      "C02_clusters_nonempty", "C02_centroid_is_majority",
-                     "C02_exact_labels", "C02_labels_nonvacuous"],
+                     "C02_exact_labels", "C02_labels_nonvacuous",
+                     "C02_source_tie_update", "C02_source_tie_merge"],
         "suites": [suite_sub.suite_sub, suite_hist.suite_boundary, suite_hist.suite_tree_walk,
                    suite_hist.suite_seq_refine("C02"), __import__('suite_rebuild').suite_rebuild],
         "search": _c02_search,
